@@ -10,7 +10,7 @@ from ..runner import d64, digest_of, violation
 from .c02 import intra_frame_boundaries, run_reader
 
 PROP = "C05"
-RUNS = {"quick": 16000, "thorough": 1200000}
+RUNS = {"quick": 48000, "thorough": 1200000}
 BLOCK = {"quick": 200, "thorough": 2000}
 SHRINK_LISTS = ["items", "decisions"]
 RULE = (
